@@ -10,6 +10,7 @@ Mk(n, never, b) ==
    fallible |-> FALSE, group |-> FALSE, never |-> never, x |-> -1, conts |-> <<"arr", "vec", "tup">>] @@ b
 
 CfgsQuick ==
+  {[repoll |-> TRUE] @@ Mk(2, <<>>, B(FALSE, 1, 1, 1, 0, 0, 0, FALSE, FALSE))} \cup
   {[reuse |-> TRUE] @@ Mk(2, <<>>, B(FALSE, 1, 1, 1, 0, 1, 0, FALSE, FALSE))} \cup
   {Mk(2, <<>>, B(FALSE, 1, 2, 2, 1, 1, 1, TRUE, TRUE)), Mk(3, <<>>, B(FALSE, 1, 1, 1, 1, 1, 1, FALSE, FALSE)),
    Mk(2, <<0>>, B(FALSE, 1, 1, 2, 1, 1, 1, FALSE, FALSE)), Mk(0, <<>>, B(FALSE, 1, 1, 1, 0, 0, 0, TRUE, FALSE)),
